@@ -10,8 +10,19 @@ import NdnModel.Sha256
        `k:s:<code|~>:<0|1 body>:<0|1 sigOk>`        ControlResponse reply
        `k:g:<0|1 sigOk>` `k:n` `k:t` `k:x`          undecodable Data / Nack / timeout / canceled
        `o:<pfx>|<pfx>…` (`o:` = no routes)          connection established, starting_task runs
+       `f:<i>:<reply token without the leading k:>`  answer to the i-th command in flight outside the lock
+                                                    (only `v1u`, the unchanged legacy front-end, has any)
     answer: `ok <out> … #<ticks used>,<sleeps used>,<signs used>,<posts used>,<last>`
        `C<id>:<r|u>:<pfx>:<a|m>@<ts>`  `R<id>=T|F|!<Err>`  `K`  `U`
+    `<v2|v1>` may also be `v2u` / `v1u`: the unchanged tree (`Cfg.unchanged`), or `v1p`: the legacy front-end before
+    C17-5 with the response fixes in — for replaying older trees against their configuration of the model
+
+    composed model (`Ndn.NfdBytes.runW`): from the call to the bytes on the face and from the reply bytes to the result
+    `C17 smw <v2|v1> <l|h> <t0> <ticks> <sleeps> <signs> <posts> <prefixes> <nonce32s> <nonce64s> <ev>;<ev>;…`
+       prefixes: `|`-separated names, each a `,`-separated component hex list (`.` = the empty name); a call names
+       a prefix by its index; nonce lists: the Nonce / SignatureNonce (legacy: nonce component) of the k-th command
+       events as for `sm`, but a reply is `d:<wire hex>` (the bytes of a Data packet; any bytes) or `k:n` `k:t` `k:x`
+    answer: as for `sm`, every command token followed by `=<wire hex>` (or `=!<Err>`): the command Interest on the face
 
     `C17 pr <code|~> <textHex|~> <body>`  body: `~` (absent) or `,`-separated `<field>=<val>` (`.` = no field)
        val: `u<nat>` `t<hex>` `n<hex>|<hex>…` (`n` = empty name)
@@ -51,6 +62,32 @@ def parseEv (s : String) : Option Ev :=
   | ["o", ps] => if ps == "" then some (.connect []) else ((ps.splitOn "|").mapM String.toNat?).map .connect
   | _ => none
 
+def parseEvU (s : String) : Option Ev :=
+  match s.splitOn ":" with
+  | "f" :: i :: rest =>
+    match i.toNat?, parseEv (":".intercalate ("k" :: rest)) with
+    | some i, some (.reply k) => some (.replyU i k)
+    | _, _ => none
+  | _ => parseEv s
+
+def parseWEv (s : String) : Option WEv :=
+  match s.splitOn ":" with
+  | ["c", "r", p] => p.toNat?.map (WEv.call .register)
+  | ["c", "u", p] => p.toNat?.map (WEv.call .unregister)
+  | ["d", hx] => (fromHex hx).map WEv.data
+  | ["k", "n"] => some .nack
+  | ["k", "t"] => some .timeout
+  | ["k", "x"] => some .canceled
+  | ["o", ps] => if ps == "" then some (.connect []) else ((ps.splitOn "|").mapM String.toNat?).map .connect
+  | _ => none
+
+def parseCfg (fe : String) : Option Cfg :=
+  if fe == "v2" then some (Cfg.repaired .v2) else if fe == "v1" then some (Cfg.repaired .legacy)
+  else if fe == "v2u" then some (Cfg.unchanged .v2) else if fe == "v1u" then some (Cfg.unchanged .legacy)
+  -- the legacy front-end before C17-5 (unregister outside the lock, no timestamp guard), response fixes in
+  else if fe == "v1p" then some ⟨.legacy, true, true, true, false, false, false⟩
+  else none
+
 def showRes : Except PyErr Bool → String
   | .ok true => "T" | .ok false => "F" | .error e => "!" ++ e.name
 
@@ -87,6 +124,13 @@ def showDVal : DVal → String
 def parseLoc (s : String) : Option Bool :=
   if s == "l" then some true else if s == "h" then some false else none
 
+/-- the trace with the wire of every command behind its token -/
+def showOutsW : List Out → List (Except PyErr Bytes) → List String
+  | [], _ => []
+  | .cmd r ts :: t, w :: ws =>
+    (showOut (.cmd r ts) ++ "=" ++ (match w with | .ok b => toHex b | .error e => "!" ++ e.name)) :: showOutsW t ws
+  | o :: t, ws => showOut o :: showOutsW t ws
+
 def showNameRes : Except PyErr (List Bytes) → String
   | .ok n => "ok " ++ toHexList n
   | .error e => "err " ++ e.name
@@ -94,14 +138,28 @@ def showNameRes : Except PyErr (List Bytes) → String
 def handle1 (args : List String) : String :=
   match args with
   | ["sm", fe, t0, ticks, sleeps, signs, posts, evs] =>
-    let fe? : Option FrontEnd := if fe == "v2" then some .v2 else if fe == "v1" then some .legacy else none
-    match fe?, t0.toNat?, natList ticks, natList sleeps, natList signs, natList posts,
-          (if evs == "." then some [] else (evs.splitOn ";").mapM parseEv) with
-    | some fe, some t0, some ti, some sl, some sg, some po, some es =>
-      let r := run (Cfg.repaired fe) (envOf ti sl sg po) (init t0) es
+    match parseCfg fe, t0.toNat?, natList ticks, natList sleeps, natList signs, natList posts,
+          (if evs == "." then some [] else (evs.splitOn ";").mapM parseEvU) with
+    | some cfg, some t0, some ti, some sl, some sg, some po, some es =>
+      let r := run cfg (envOf ti sl sg po) (init t0) es
       let c := r.1.clock
       "ok " ++ " ".intercalate (r.2.map showOut) ++ " #" ++
         ",".intercalate ([c.ti, c.si, c.gi, c.pi, r.1.last].map toString)
+    | _, _, _, _, _, _, _ => "bad-op"
+  | ["smw", fe, loc, t0, ticks, sleeps, signs, posts, pfxs, n32s, n64s, evs] =>
+    let fe? : Option FrontEnd := if fe == "v2" then some .v2 else if fe == "v1" then some .legacy else none
+    match fe?, parseLoc loc, t0.toNat?, natList ticks, natList sleeps, natList signs, natList posts with
+    | some fe, some l, some t0, some ti, some sl, some sg, some po =>
+      match (pfxs.splitOn "|").mapM fromHexList, natList n32s, natList n64s,
+            (if evs == "." then some [] else (evs.splitOn ";").mapM parseWEv) with
+      | some ps, some n32, some n64, some es =>
+        let w : Wire := { H := Sha256.sha256, isLocal := l, pfxName := fun i => ps.getD i [],
+                          nonce32 := fun k => n32.getD k 0, nonce64 := fun k => n64.getD k 0 }
+        let r := runW (Cfg.repaired fe) (envOf ti sl sg po) w (init t0) es
+        let c := r.1.clock
+        "ok " ++ " ".intercalate (showOutsW r.2.1 r.2.2) ++ " #" ++
+          ",".intercalate ([c.ti, c.si, c.gi, c.pi, r.1.last].map toString)
+      | _, _, _, _ => "bad-op"
     | _, _, _, _, _, _, _ => "bad-op"
   | ["pr", code, text, body] =>
     let code? : Option (Option Nat) := if code == "~" then some none else code.toNat?.map some
